@@ -1,6 +1,7 @@
 package main
 
 import (
+	"sync"
 	"fmt"
 	"go/ast"
 	"go/build"
@@ -21,6 +22,8 @@ import (
 // else (the standard library) is type-checked from GOROOT source with function
 // bodies ignored.
 type Loader struct {
+	langMu sync.Mutex
+	langOK map[string]bool // file -> has per-iteration loop variables (Go >= 1.22 for that file)
 	Root  string
 	Fset  *token.FileSet
 	std   types.Importer
